@@ -58,6 +58,9 @@ fn who(i: u8) -> String {
         5 => HUB.to_string(),
         6 => SINK.to_string(),
         7 => OWNER.to_string(),
+        // indices 200.. spell one of the first principals in upper case (the same account to the chain, whose
+        // addresses are case-insensitive: MockApi, like bech32, normalises to lower case)
+        k if k >= 200 => who((k - 200) % 8).to_uppercase(),
         // indices 8.. are further plain accounts (more than one 30-entry page of AllAccounts)
         k => format!("acct{}", k % 48),
     }
@@ -94,7 +97,7 @@ pub fn strategy() -> BoxedStrategy<Case> {
         prop_oneof![6 => Just("token".to_string()), 1 => Just("ab".to_string()), 1 => "[a-z]{3,50}", 1 => "[a-z]{51,60}"],
         prop_oneof![6 => Just("TOKEN".to_string()), 1 => Just("T1X".to_string()), 1 => "[a-zA-Z\\-]{3,12}", 1 => Just("AB".to_string())],
         prop_oneof![6 => 0u8..=18, 1 => 19u8..40],
-        proptest::collection::vec((0u8..8, prop_oneof![1 => Just(0u128), 3 => 1u128..1000, 2 => 1u128..1_000_000_000_000_000u128].prop_map(Uint128::new)), 0..8),
+        proptest::collection::vec((prop_oneof![8 => 0u8..8, 1 => 200u8..208], prop_oneof![1 => Just(0u128), 3 => 1u128..1000, 2 => 1u128..1_000_000_000_000_000u128].prop_map(Uint128::new)), 0..8),
         proptest::collection::vec(op_strategy(), 0..40),
         0u32..20,
     )
@@ -106,9 +109,17 @@ pub fn strategy() -> BoxedStrategy<Case> {
                 symbol = "TOKEN".into();
                 decimals = decimals % 19;
             }
+            if roll % 6 != 5 {
+                // upper-case spellings only in a sixth of the cases (the stSei token refuses them at instantiate)
+                for e in initial.iter_mut() {
+                    if e.0 >= 200 {
+                        e.0 = (e.0 - 200) % 8;
+                    }
+                }
+            }
             if roll % 5 != 0 {
                 let mut seen = std::collections::BTreeSet::new();
-                initial.retain(|(i, _)| seen.insert(who(*i)));
+                initial.retain(|(i, _)| seen.insert(who(*i).to_lowercase()));
             }
             let mut ops = ops;
             if roll % 8 == 7 {
@@ -263,7 +274,7 @@ impl Prop for C18 {
         let initial: Vec<Cw20Coin> = c.initial.iter().map(|(i, a)| Cw20Coin { address: who(*i), amount: *a }).collect();
         let repeated = {
             let mut seen = std::collections::BTreeSet::new();
-            c.initial.iter().any(|(i, _)| !seen.insert(who(*i)))
+            c.initial.iter().any(|(i, _)| !seen.insert(who(*i).to_lowercase()))
         };
         let r = if c.stsei {
             let mut m = stsei_init(HUB, initial.clone());
@@ -280,6 +291,14 @@ impl Prop for C18 {
         };
         if repeated {
             out.label("instantiate_with_repeated_addresses");
+            // C18 quantifies over instantiate messages with repeated addresses: the same account named twice (in any
+            // spelling) would be credited once per row while... the supply counts every row; it must be refused
+            if r.is_ok() && c.initial.iter().any(|(i, _)| *i >= 200) {
+                out.label("instantiate_with_case_variant_repeat_accepted");
+            }
+        }
+        if c.initial.iter().any(|(i, _)| *i >= 200) {
+            out.label("instantiate_with_upper_case_address");
         }
         if r.is_err() {
             out.label("instantiate_rejected");
@@ -288,7 +307,8 @@ impl Prop for C18 {
         }
         let mut m = Model::default();
         for coin in &initial {
-            *m.bal.entry(coin.address.clone()).or_default() += coin.amount.u128();
+            // account identity is the normalised (lower-case) address
+            *m.bal.entry(coin.address.to_lowercase()).or_default() += coin.amount.u128();
             m.supply += coin.amount.u128();
         }
         if let Some(x) = self.compare(&w, &m, &format!("{} right after instantiate with initial balances {:?}", tname, c.initial)) {
